@@ -220,9 +220,26 @@ class CurveMachine(object):
                 if i < A.shape[1]:
                     m["data"] = A[:, i].copy()
             self.rows = rows
+            self.check_views()
+            self.check_renamed()
+            return
         else:
             raise ValueError("unknown op %r" % (op,))
         self.check_views()
+
+    def check_renamed(self):
+        """set_data gives every curve its name (again): right afterwards the curve list is named like a freshly built
+        one - a name borne by one curve addresses that curve, shared names are numbered in order."""
+        import re as _re
+        from .sectionmachine import fresh_sessions
+        origs = [m["orig"] for m in self.L]
+        if any(_re.match(r"^.*:\d+$", useful(o)) for o in origs):
+            self.res.count("rename-view-skipped-suffix-lookalike")      # F-C13-1 territory
+            return
+        want = fresh_sessions(origs, bool(self.las.curves.mnemonic_transforms))
+        got = self.sessions()
+        if got != want:
+            self.fail("C14.views", "after set_data keys() = %r, the list model's names are %r" % (got, want))
 
     def resolve_key(self, spec):
         """("new", name) | ("cur", j) -> a current session name of curve j (falls back to NEW when empty)."""
